@@ -71,6 +71,16 @@ PIPES = {
     "P11": ([TIP, "correct_tip_offset", "smooth_height"],
             {"correct_tip_offset": {"method": "gradient_zero_crossing"}}),
     "P12": ([TIP, "smooth_height"], {}),
+    # segment discovery (with and without a slope correction before it, so
+    # that the switch lands on different samples) followed by smoothing
+    "P13": ([TIP, "correct_tip_offset", "correct_force_slope",
+             "correct_split_approach_retract", "smooth_height"],
+            {"correct_force_slope": {"region": "all", "strategy": "drift"}}),
+    "P14": ([TIP, "correct_split_approach_retract", "smooth_height"], {}),
+    "P15": ([TIP, "correct_tip_offset", "correct_force_slope",
+             "correct_split_approach_retract", "smooth_height"],
+            {"correct_force_slope": {"region": "baseline",
+                                     "strategy": "shift"}}),
 }
 BADPIPES = {
     "B1": ([TIP, "bogus_step"], {}),                       # unknown, last
@@ -557,6 +567,9 @@ SLICES = {
                 raters=[], mutate_pl=True, fitpre1=False),
     # a step whose input is another step's output: every pair of pipelines
     # that feed it differently
+    "split": dict(pipes=["P0", "P3", "P13", "P14", "P15"], badpipes=[],
+                  keys={"model_key": ["m_para"]},
+                  raters=[], mutate_pl=False, fitpre1=False),
     "smooth": dict(pipes=["P0", "P5", "P10", "P11", "P12"], badpipes=["B2"],
                    keys={"model_key": ["m_para"]},
                    raters=[], mutate_pl=False, fitpre1=False),
